@@ -471,7 +471,7 @@ def streamLoop (valid : Bool) (k : Bytes) (remaining : Nat) : Nat → Nat → Db
       (readString bs).bind fun idStr r1 =>
       (readString r1).bind fun fcStr r2 =>
       let fc := (parseU64 fcStr).getD 0
-      if (idx + 2 + fc * 2 % two64) % two64 > remaining then .ok db r2 []
+      if idx + 2 + fc * 2 > remaining then .ok db r2 []      -- `checked_mul` / `checked_add` since 0782b81: no wrap-around
       else
         (readPairs fc r2).bind fun fvs r3 =>
         let fields := upsertAll [] fvs
